@@ -414,7 +414,10 @@ def unpack_opargs_bytecode(code, opc):
         op = code2num(code, offset)
         offset += 1
         if op_has_argument(op, opc):
-            arg = code2num(code, offset) | extended_arg
+            # Before 3.6 an operand is two bytes, low byte first.
+            arg = (
+                code2num(code, offset) + code2num(code, offset + 1) * 0x100
+            ) | extended_arg
             extended_arg = (
                 extended_arg_val(opc, arg)
                 if hasattr(opc, "EXTENDED_ARG") and op == opc.EXTENDED_ARG
